@@ -814,6 +814,30 @@ func unjudgedVariants() []defect {
 
 // ---- execution ----
 
+// tally counts outcomes per plan label for the evidence file.
+var tally struct {
+	sync.Mutex
+	m map[string]*[2]int64 // [accepted, rejected]
+}
+
+func tallyAdd(label string, accepted bool) {
+	tally.Lock()
+	defer tally.Unlock()
+	if tally.m == nil {
+		tally.m = map[string]*[2]int64{}
+	}
+	c := tally.m[label]
+	if c == nil {
+		c = &[2]int64{}
+		tally.m[label] = c
+	}
+	if accepted {
+		c[0]++
+	} else {
+		c[1]++
+	}
+}
+
 type c32Witness struct {
 	Kind      string            `json:"kind"`
 	Changes   []string          `json:"changes,omitempty"`
@@ -954,6 +978,7 @@ func (u *updPlan) run(r *mon.Run) {
 			outcome = "accepted"
 		}
 		r.Event(outcome)
+		tallyAdd(u.kind+"/"+label+" expect="+expect, verr == nil)
 		cls := u.kind + "/" + label + "/" + outcome
 		if u.defect == "" && u.unjudged == "" {
 			ch := append([]string(nil), u.changes...)
@@ -1159,6 +1184,15 @@ func checkC32(r *mon.Run) {
 	}
 	wg.Wait()
 	c32NegativeQuorumProbe(r, e)
+	{
+		out := map[string]string{}
+		tally.Lock()
+		for k, v := range tally.m {
+			out[k] = fmt.Sprintf("accepted=%d rejected=%d", v[0], v[1])
+		}
+		tally.Unlock()
+		r.Extra("outcomes_by_plan", out)
+	}
 	r.Require(int64(nScen)*100, 80, "verify_decode", "verify_struct", "accepted", "rejected")
 	r.RequireClasses("regular/duplicate-votes/rejected", "sensitive/duplicate-votes/rejected",
 		"regular/missing-new-voter-signature/rejected", "regular/missing-root-acknowledgement/rejected",
